@@ -270,6 +270,67 @@ def run(ck):
             ck.check(pa.term == T.app("sum", T.exp(-E.term), (-1,)), "C02.R5", "partition=sum exp(-E)", prog.method("PurificationRBM", "partition").site(),
                      "partition is not the sum over the space of exp(-effective_energy)")
             ck.check(n.term == pa.term, "C02.R5", "normalization=partition", prog.method(DM, "normalization").site(), "normalization(space) is not rbm_am.partition(space)")
+    # ------------------------------------------------------------------ R7 Pi is the trace over the auxiliary units, entry for entry
+    # Pi(s, s') = sum_k log(1 + e^(x_k + i y_k)), x = (theta(s) + theta(s')) / 2 with theta = U_am s + d, y = (U_ph s - U_ph s') / 2:
+    #   Re Pi = 1/2 sum_k log(1 + 2 e^x cos y + e^2x)      Im Pi = sum_k atan2(e^x sin y, 1 + e^x cos y)
+    # compared by value as polynomials in e^x, cos y, sin y with sin^2 = 1 - cos^2 (a canonical form: the comparison is a decision
+    # for results of that shape; any other shape is not decided)
+    pi_site = prog.method(DM, "pi").site()
+    for cname, (sv, svp, expand) in contexts.items():
+        inst = "pi/" + cname
+        with ck.guard("C02.R7", inst, pi_site):
+            def thpi(it, s, sv=sv, svp=svp, expand=expand):
+                v, vp = tens(it, "v", sv), tens(it, "vp", svp)
+                return call(it, s, "pi", v, vp, expand=VConst(expand)), role_terms(it, it.get_attr(s, "rbm_am", None)), role_terms(it, it.get_attr(s, "rbm_ph", None))
+
+            for p in returning(_ev(ck, thpi), inst):
+                g, Ra, Rp = p.value
+                comps = T.as_stack0(g.term) if g.term is not None else None
+                if comps is None or len(comps) != 2:
+                    ck.undecided("C02.R7", inst, pi_site, "pi is not a (re, im) pair")
+                    continue
+                v, vp = T.sym("v"), T.sym("vp")
+                ma, mpa = aff(v, Ra["U"], Ra["d"]), aff(vp, Ra["U"], Ra["d"])
+                mp_, mpp = T.app("matmul", v, T.app("t", Rp["U"])), T.app("matmul", vp, T.app("t", Rp["U"]))
+                if expand and len(sv) == 2:
+                    row = lambda t: T.app("unsq", t, -2, 3)  # noqa: E731
+                    col = lambda t: T.app("unsq", t, -3, 3)  # noqa: E731
+                else:
+                    row = col = lambda t: t  # noqa: E731
+                x = Fraction(1, 2) * (row(ma) + col(mpa))
+                y = Fraction(1, 2) * (row(mp_) - col(mpp))
+                ex = T.exp(x)
+                q_want = T.ONE + 2 * ex * T.cos(y) + T.exp(2 * x)
+                a_want, b_want = ex * T.sin(y), T.ONE + ex * T.cos(y)
+                # the phase network's auxiliary bias is held at its documented value 0
+                dat = Rp["d"].single_atom()
+                zero_d = (lambda t: T.rename_syms(t, {dat.name: T.ZERO})) if isinstance(dat, T.Sym) else (lambda t: t)
+                re_, im_ = zero_d(comps[0]), zero_d(comps[1])
+                # real part: c * sum(log(Q)) over the auxiliary axis with Q^(2c) = |1 + e^(x+iy)|^2
+                sm = re_.single_mono()
+                verdict, why = None, "the real part is not c * sum(log(Q)) over the auxiliary units: %s" % (str(re_)[:160],)
+                if sm is not None and len(sm[0]) == 1 and sm[0][0][1] == 1 and isinstance(sm[0][0][0], T.App) and sm[0][0][0].op == "sum" and tuple(sm[0][0][0].args[1]) == (-1,):
+                    inner = sm[0][0][0].args[0].single_atom()
+                    c_ = sm[1]
+                    if isinstance(inner, T.App) and inner.op == "log" and c_ in (Fraction(1, 2), 1):
+                        q = inner.args[0] if c_ == Fraction(1, 2) else inner.args[0] * inner.args[0]
+                        verdict = T.trig_normal(q) == T.trig_normal(q_want)
+                        why = "Re Pi is %s sum_k log(%s); |1 + e^(x+iy)|^2 is 1 + 2 e^x cos y + e^2x: the moduli of the off-diagonal elements differ from the purification's (the matrix is no longer its partial trace, nor positive semidefinite)" % (c_, str(T.trig_normal(inner.args[0]))[:200])
+                    elif isinstance(inner, T.App) and inner.op == "softplus" and c_ == 1 and im_.is_zero():
+                        verdict, why = None, "softplus form (no phase): not compared"
+                ck.check(verdict, "C02.R7", inst + ":Re Pi = 1/2 sum log|1 + e^(x+iy)|^2", pi_site, why)
+                sm = im_.single_mono()
+                verdict, why = None, "the imaginary part is not sum(atan2(A, B)) over the auxiliary units: %s" % (str(im_)[:160],)
+                if sm is not None and len(sm[0]) == 1 and sm[0][0][1] == 1 and isinstance(sm[0][0][0], T.App) and sm[0][0][0].op == "sum" and tuple(sm[0][0][0].args[1]) == (-1,) and abs(sm[1]) == 1:
+                    inner = sm[0][0][0].args[0]
+                    ism = inner.single_mono()
+                    if ism is not None and len(ism[0]) == 1 and ism[0][0][1] == 1 and isinstance(ism[0][0][0], T.App) and ism[0][0][0].op == "atan2" and abs(ism[1]) == 1:
+                        sign = sm[1] * ism[1]
+                        a_, b_ = ism[0][0][0].args
+                        verdict = T.trig_normal(sign * a_) == T.trig_normal(a_want) and T.trig_normal(b_) == T.trig_normal(b_want)
+                        why = "Im Pi is sum_k atan2(%s, %s), expected atan2(e^x sin y, 1 + e^x cos y)" % (str(sign * a_)[:120], str(b_)[:120])
+                ck.check(verdict, "C02.R7", inst + ":Im Pi = sum arg(1 + e^(x+iy))", pi_site, why)
+    ck.require_min("C02.R7", 6)
     # ------------------------------------------------------------------ R6 history independence (two-call protocol)
     from .history import check_history
 
